@@ -38,7 +38,7 @@
 From Coq Require Import String List NArith ZArith Bool Arith Lia.
 From Tealer Require Import Tables LeafPrelude Leaves Syntax Parse Cfg StackAst Keys Analysis Domains Detect Group Driver.
 From Tealer Require Import Paths Literal LeafLemmas SolverLemmas ExactLemmas ExecLemmas GraphWf GraphOk NoMiss ExactInstances.
-From Tealer Require Import TypeExec GroupLemmas GroupSem3.
+From Tealer Require Import TypeExec GroupLemmas GroupSem GroupSem2 GroupSem3.
 Import ListNotations.
 Open Scope string_scope.
 Open Scope list_scope.
@@ -626,3 +626,132 @@ Proof.
   apply (single_group_eq_contract_kind "ApplDeleteApplication" deletable_in_U checks_is_deletable (fun c => eq_refl)
            "is-deletable"). discriminate.
 Qed.
+
+(* ====================================================================== *)
+(* 5. non-vacuity: parsed contracts on which all hypotheses are discharged  *)
+(* ====================================================================== *)
+Module Witness.
+  Definition teal0 : teal := mkTeal 0 MAny [] [] [] (mkSub "" 0 [] []) [] None.
+  Definition prog_of (ls : list string) : prog := match parse_program (unlines ls) with Ok p => p | Err _ => [] end.
+  Definition teal_of (p : prog) : teal := match parse_teal p with Ok t => t | Err _ => teal0 end.
+  Definition res_of (f : func) : fn_result := match run_all f 100 with Done r => r | _ => mkRes [] [] [] [] [] end.
+
+  (* A. a logic-sig that bounds the fee on one branch only: both modes REPORT.
+        txn TypeEnum; int 1; ==; bnz pay; txn Fee; int 1000; <=; assert; pay: int 1; return *)
+  Definition linesA : list string :=
+    ["#pragma version 6"; "txn TypeEnum"; "int 1"; "=="; "bnz pay"; "txn Fee"; "int 1000"; "<="; "assert";
+     "pay:"; "int 1"; "return"].
+  Definition pA : prog := Eval vm_compute in prog_of linesA.
+  Definition tA : teal := Eval vm_compute in teal_of pA.
+  Definition fA : func := whole_function tA.
+  Definition rA : fn_result := Eval vm_compute in res_of fA.
+  (* B. a logic-sig that bounds the fee on every path (a diamond): both modes are SILENT.
+        txn TypeEnum; int 1; ==; bnz pay; txn Fee; int 1000; <=; assert; b done; pay: txn Fee; int 2000; <; assert;
+        done: int 1; return *)
+  Definition linesB : list string :=
+    ["#pragma version 6"; "txn TypeEnum"; "int 1"; "=="; "bnz pay"; "txn Fee"; "int 1000"; "<="; "assert"; "b done";
+     "pay:"; "txn Fee"; "int 2000"; "<"; "assert"; "done:"; "int 1"; "return"].
+  Definition pB : prog := Eval vm_compute in prog_of linesB.
+  Definition tB : teal := Eval vm_compute in teal_of pB.
+  Definition fB : func := whole_function tB.
+  Definition rB : fn_result := Eval vm_compute in res_of fB.
+  (* C. an application that forbids updates and allows everything else: is-updatable SILENT, is-deletable REPORTS.
+        txn OnCompletion; int UpdateApplication; !=; assert; int 1; return *)
+  Definition linesC : list string :=
+    ["#pragma version 6"; "txn OnCompletion"; "int UpdateApplication"; "!="; "assert"; "int 1"; "return"].
+  Definition pC : prog := Eval vm_compute in prog_of linesC.
+  Definition tC : teal := Eval vm_compute in teal_of pC.
+  Definition fC : func := whole_function tC.
+  Definition rC : fn_result := Eval vm_compute in res_of fC.
+
+  Definition TL : gtxn := mkTxn "T" "Pay" true (Some 0) None None [].
+  Definition TA : gtxn := mkTxn "U" "Appl" false None (Some 0) None [].
+
+  Lemma parsed :
+    (parse_program (unlines linesA) = Ok pA /\ parse_teal pA = Ok tA /\ struct_okb tA = true /\
+     subroutine_freeb fA = true /\ run_all fA 100 = Done rA) /\
+    (parse_program (unlines linesB) = Ok pB /\ parse_teal pB = Ok tB /\ struct_okb tB = true /\
+     subroutine_freeb fB = true /\ run_all fB 100 = Done rB) /\
+    (parse_program (unlines linesC) = Ok pC /\ parse_teal pC = Ok tC /\ struct_okb tC = true /\
+     subroutine_freeb fC = true /\ run_all fC 100 = Done rC).
+  Proof. repeat split; vm_compute; reflexivity. Qed.
+
+  (* the computed verdicts *)
+  Example fee_both_report :
+    run_detector fA rA 100 "missing-fee-check" checks_missing_fee_check = Done [[0; 2]] /\
+    txn_vulnerable [(fA, rA)] checks_missing_fee_check "STATELESS" None [TL] TL = true.
+  Proof. split; vm_compute; reflexivity. Qed.
+  Example fee_both_silent :
+    run_detector fB rB 100 "missing-fee-check" checks_missing_fee_check = Done [] /\
+    txn_vulnerable [(fB, rB)] checks_missing_fee_check "STATELESS" None [TL] TL = false.
+  Proof. split; vm_compute; reflexivity. Qed.
+  Example updatable_both_silent :
+    run_detector fC rC 100 "is-updatable" checks_is_updatable = Done [] /\
+    txn_vulnerable [(fC, rC)] checks_is_updatable "STATEFULL" None [TA] TA = false.
+  Proof. split; vm_compute; reflexivity. Qed.
+  Example deletable_both_report :
+    run_detector fC rC 100 "is-deletable" checks_is_deletable = Done [[0]] /\
+    txn_vulnerable [(fC, rC)] checks_is_deletable "STATEFULL" None [TA] TA = true.
+  Proof. split; vm_compute; reflexivity. Qed.
+
+  (* the theorem applied: every hypothesis of single_group_eq_contract_fee_parsed is discharged on A and on B *)
+  Example fee_eq_on_A ps :
+    run_detector fA rA 100 "missing-fee-check" checks_missing_fee_check = Done ps ->
+    (txn_vulnerable [(fA, rA)] checks_missing_fee_check "STATELESS" None [TL] TL = true <-> ps <> []).
+  Proof.
+    destruct parsed as ((_ & Hp & Hok & Hsf & Hrun) & _).
+    apply (single_group_eq_contract_fee_parsed [(fA, rA)] "STATELESS" None TL 0 pA tA rA 100 100 ps Hp
+             (struct_okb_sound tA Hok) (subroutine_freeb_sound fA Hsf)
+             (or_introl (conj eq_refl eq_refl)) eq_refl eq_refl (eligible_stateless TL eq_refl) eq_refl Hrun).
+  Qed.
+  Example fee_eq_on_B ps :
+    run_detector fB rB 100 "missing-fee-check" checks_missing_fee_check = Done ps ->
+    (txn_vulnerable [(fB, rB)] checks_missing_fee_check "STATELESS" None [TL] TL = true <-> ps <> []).
+  Proof.
+    destruct parsed as (_ & (_ & Hp & Hok & Hsf & Hrun) & _).
+    apply (single_group_eq_contract_fee_parsed [(fB, rB)] "STATELESS" None TL 0 pB tB rB 100 100 ps Hp
+             (struct_okb_sound tB Hok) (subroutine_freeb_sound fB Hsf)
+             (or_introl (conj eq_refl eq_refl)) eq_refl eq_refl (eligible_stateless TL eq_refl) eq_refl Hrun).
+  Qed.
+  (* the path whose existence the theorem asserts for the unvalidated exit 2 of A ends there *)
+  Example fee_path_on_A :
+    exists p, GoodPath fA (validated_in_block rA checks_missing_fee_check None) p /\ last p 0 = 2.
+  Proof.
+    destruct parsed as ((_ & Hp & Hok & Hsf & Hrun) & _).
+    apply (unvalidated_leaf_has_unvalidated_path_fee fA 100 rA 2
+             (graph_wf_whole_function pA tA Hp (struct_okb_sound tA Hok)) (subroutine_freeb_sound fA Hsf) Hrun).
+    - exists (mkBlock 2 [9; 10; 11] [] [1; 0]). split; [vm_compute; auto|]. split; vm_compute; reflexivity.
+    - vm_compute. reflexivity.
+  Qed.
+  Example kind_eq_on_C :
+    (forall ps, run_detector fC rC 100 "is-updatable" checks_is_updatable = Done ps ->
+       (txn_vulnerable [(fC, rC)] checks_is_updatable "STATEFULL" None [TA] TA = true <-> ps <> [])) /\
+    (forall ps, run_detector fC rC 100 "is-deletable" checks_is_deletable = Done ps ->
+       (txn_vulnerable [(fC, rC)] checks_is_deletable "STATEFULL" None [TA] TA = true <-> ps <> [])).
+  Proof.
+    destruct parsed as (_ & _ & (_ & Hp & Hok & Hsf & Hrun)).
+    pose proof (graph_wf_whole_function pC tC Hp (struct_okb_sound tC Hok)) as Hwf.
+    pose proof (subroutine_freeb_sound fC Hsf) as Hsf'.
+    split; intros ps.
+    - apply (single_group_eq_contract_updatable [(fC, rC)] "STATEFULL" None TA 0 fC rC 100 100 ps
+               (or_intror (conj eq_refl eq_refl)) eq_refl eq_refl (eligible_statefull TA 0 eq_refl) eq_refl Hwf Hsf' Hrun).
+    - apply (single_group_eq_contract_deletable [(fC, rC)] "STATEFULL" None TA 0 fC rC 100 100 ps
+               (or_intror (conj eq_refl eq_refl)) eq_refl eq_refl (eligible_statefull TA 0 eq_refl) eq_refl Hwf Hsf' Hrun).
+  Qed.
+End Witness.
+
+Print Assumptions solve_unvalidated_reachable.
+Print Assumptions unval_iff_key.
+Print Assumptions family_unvalidated_reachable.
+Print Assumptions unvalidated_leaf_has_unvalidated_path.
+Print Assumptions unvalidated_leaf_has_unvalidated_path_fee.
+Print Assumptions leaves_justified_fee.
+Print Assumptions single_group_eq_contract_fee.
+Print Assumptions single_group_eq_contract_fee_parsed.
+Print Assumptions single_group_eq_contract_kind.
+Print Assumptions single_group_eq_contract_updatable.
+Print Assumptions single_group_eq_contract_deletable.
+Print Assumptions Witness.fee_eq_on_A.
+Print Assumptions Witness.fee_eq_on_B.
+Print Assumptions Witness.fee_path_on_A.
+Print Assumptions Witness.kind_eq_on_C.
